@@ -321,3 +321,19 @@ def no_match_gives_empty(jt):
             if sum(join(L, R, jt).values()):
                 return False
     return True
+
+
+def drop_unmatched_side_safe(jt, side):
+    """removing the rows of `side` that match no row of the other side never changes the
+    join result (what a dynamic filter derived from the other side's keys may do)"""
+    for L in RELS:
+        for R in RELS:
+            if side == 1:
+                R2 = [r for r in R if any(eq(l, r) for l in L)]
+                if join(L, R2, jt) != join(L, R, jt):
+                    return False
+            else:
+                L2 = [l for l in L if any(eq(l, r) for r in R)]
+                if join(L2, R, jt) != join(L, R, jt):
+                    return False
+    return True
